@@ -2,7 +2,7 @@
    Only pinned statements, `exact`, Examples by vm_compute, and Print Assumptions. *)
 From Coq Require Import String List NArith ZArith PArith Bool FMapPositive.
 From Sylt Require Import Syntax.Resolved Types.TyGraph Types.Tc Types.Ctx Types.TcInv Types.Reject Types.Mismatch
-  Types.CopyInst Types.Calls Types.CallsDecl Types.BlobFields Types.FieldAssign.
+  Types.CopyInst Types.Calls Types.CallsDecl Types.BlobFields Types.FieldAssign Types.TwoDecls.
 Import ListNotations.
 Local Open Scope string_scope.
 
@@ -192,6 +192,55 @@ Theorem C03_field_assign : forall name v sp tvars bfields k b bname bv bkind bdt
        SDefinition dname dvar dkind dty (plug_e e stm C) dsp :: post)) <> Ok tt.
 Proof. exact FieldAssign.C03_field_assign_rejected. Qed.
 
+(* two declarations at once.  After the top-level declarations `f :: fn .. -> r do .. end` and, later,
+   `g :: fn .. -> r' do .. end` (all parameters and both results annotated with leaf types), anywhere inside the value
+   of a later top-level definition: a call of either with an argument -- a literal, a call of f or a call of g -- of
+   another type than the parameter (f(g(1)), g(f(1))), or any mismatch kind of bad_expr with literals and calls of the
+   two functions as operands (f(1) + g(2), [f(1), g(2)]), is rejected.  The signature of f is threaded through the
+   declaration of g. *)
+Theorem C03_two_functions : forall
+    name1 v1 kind1 dty1 nm1 params1 ps1 rb1 tsp1 body1 pure1 fsp1 dsp1
+    name2 v2 kind2 dty2 nm2 params2 ps2 rb2 tsp2 body2 pure2 fsp2 dsp2 e,
+  annotated params1 ps1 -> (forall n b, nth_error ps1 n = Some b -> rigid_base b = true) -> rigid_base rb1 = true ->
+  annotated params2 ps2 -> (forall n b, nth_error ps2 n = Some b -> rigid_base b = true) -> rigid_base rb2 = true ->
+  bad_call2 v1 ps1 rb1 v2 ps2 rb2 e ->
+  forall pre mid1 mid2 post dname dvar dkind dty' (C : ectx) dsp' sp0 fuel vars,
+    typecheck fuel (mkResolved vars
+      (pre ++ SDefinition name1 v1 kind1 dty1 (EFunction nm1 params1 (TResolved rb1 tsp1) body1 pure1 fsp1) dsp1 :: mid1 ++
+       SDefinition name2 v2 kind2 dty2 (EFunction nm2 params2 (TResolved rb2 tsp2) body2 pure2 fsp2) dsp2 :: mid2 ++
+       SDefinition dname dvar dkind dty' (plug_e e (SStatementExpression e sp0) C) dsp' :: post)) <> Ok tt.
+Proof. exact TwoDecls.C03_two_functions_rejected. Qed.
+
+(* After `B :: blob { .., k: t, .. }` and, later, `f :: fn .. -> r do .. end` (leaf types, r is not t): an instantiation
+   `B { .., k: f(..), .. }` anywhere inside the value of a later top-level definition is rejected. *)
+Theorem C03_blob_field_call : forall
+    bname vb bsp tvars bfields k b
+    name v kind dty nm params ps rb tsp body pure fsp dsp
+    pre0 sp1 args csp post0 self isp,
+  rigid_base b = true -> In k (map fst bfields) ->
+  (forall ksp t, In (k, (ksp, t)) bfields -> exists tsp0, t = TResolved b tsp0) ->
+  annotated params ps -> (forall n b0, nth_error ps n = Some b0 -> rigid_base b0 = true) -> rigid_base rb = true ->
+  base_head b <> base_head rb ->
+  let e := EBlob vb (pre0 ++ (k, ECall (ERead v sp1) args csp) :: post0) self isp in
+  forall pre mid1 mid2 post dname dvar dkind dty' (C : ectx) dsp' sp0 fuel vars,
+    typecheck fuel (mkResolved vars
+      (pre ++ SBlob bname vb bsp tvars bfields false :: mid1 ++
+       SDefinition name v kind dty (EFunction nm params (TResolved rb tsp) body pure fsp) dsp :: mid2 ++
+       SDefinition dname dvar dkind dty' (plug_e e (SStatementExpression e sp0) C) dsp' :: post)) <> Ok tt.
+Proof. exact TwoDecls.C03_blob_field_call_rejected. Qed.
+
+(* the general placement theorem for two threaded declarations *)
+Theorem C03_after_two_declarations : forall (Inv1 Inv2 : st -> Prop) (d1 d2 : stmt) (e : expr),
+  (forall s s', wf s -> ext s s' -> Inv1 s -> Inv1 s') ->
+  (forall s s', wf s -> ext s s' -> Inv2 s -> Inv2 s') ->
+  (forall kinds g f s u s', wf s -> outer_statement kinds (gfix g) (afix kinds (gfix g) f) d1 ctx_new s = Ok (u, s') -> Inv1 s') ->
+  (forall kinds g f s u s', wf s -> Inv1 s -> outer_statement kinds (gfix g) (afix kinds (gfix g) f) d2 ctx_new s = Ok (u, s') -> Inv2 s') ->
+  (forall kinds g f ctx s, wf s /\ Inv2 s -> notok (r_expr (afix kinds (gfix g) f) e ctx s)) ->
+  forall pre mid1 mid2 post dname dvar dkind dty (C : ectx) dsp sp0 fuel vars,
+    typecheck fuel (mkResolved vars
+      (pre ++ d1 :: mid1 ++ d2 :: mid2 ++ SDefinition dname dvar dkind dty (plug_e e (SStatementExpression e sp0) C) dsp :: post)) <> Ok tt.
+Proof. exact TwoDecls.rejected_after_two. Qed.
+
 (* two types with components of different leaf types at the same position do not unify *)
 Theorem C03_component_conflict : forall g sp a b s ha hb x ca cb ta tb,
   wf s -> head s a = Some ha -> head s b = Some hb -> kid ha x = Some ca -> kid hb x = Some cb ->
@@ -355,7 +404,61 @@ Example C03_example_field_assign_rejects :
   = Err (mkErr KMismatch (spl 3)) [].
 Proof. vm_compute. reflexivity. Qed.
 
+(* f :: fn p: int -> int do p end ; g :: fn q: int -> str do "s" end ; start :: fn do <body> end *)
+Definition gdecl : stmt :=
+  SDefinition "g" 4 Const (TImplied (spl 2))
+    (EFunction "lambda" [("q", 5%N, spl 2, TResolved BInt (spl 2))] (TResolved BStr (spl 2))
+               [SStatementExpression (EStr "s" (spl 2)) (spl 2)] false (spl 2)) (spl 2).
+Definition progfg (body : list stmt) : resolved :=
+  mkResolved [mkVar 0 "start" sp0 true Const; mkVar 1 "x" (spl 2) false Mutable; mkVar 2 "f" (spl 1) true Const;
+              mkVar 3 "p" (spl 1) false Const; mkVar 4 "g" (spl 2) true Const; mkVar 5 "q" (spl 2) false Const]
+             [fdecl; gdecl;
+              SDefinition "start" 0 Const (TImplied sp0)
+                          (EFunction "lambda" [] (TResolved BVoid sp0) body false sp0) sp0].
+Definition callg (a : expr) : expr := ECall (ERead 4 (spl 3)) [a] (spl 3).
+
+(* g(f(1)) is accepted, f(g(1)) is a bad_call2 and is rejected *)
+Example C03_example_two_functions_ok :
+  typecheck 60 (progfg [SStatementExpression (callg (callf (EInt 1 (spl 3)))) (spl 3)]) = Ok tt.
+Proof. vm_compute. reflexivity. Qed.
+Example C03_example_two_functions_bad : bad_call2 2 [BInt] BInt 4 [BInt] BStr (callf (callg (EInt 1 (spl 3)))).
+Proof. eapply Bad2Arg1 with (n := 0%nat) (ta := HStr) (b := BInt); try reflexivity. apply (A2Call2 2 BInt 4 BStr). Qed.
+Example C03_example_two_functions_rejects :
+  typecheck 60 (progfg [SStatementExpression (callf (callg (EInt 1 (spl 3)))) (spl 3)]) = Err (mkErr KMismatch (spl 3)) [].
+Proof. vm_compute. reflexivity. Qed.
+(* f(1) + g(2) *)
+Example C03_example_two_functions_operands :
+  bad_call2 2 [BInt] BInt 4 [BInt] BStr (EBinOp Add (callf (EInt 1 (spl 3))) (callg (EInt 2 (spl 3))) (spl 3)).
+Proof.
+  apply Bad2Operand. eapply BadArith with (k := AAdd) (ta := HInt) (tb := HStr); try reflexivity.
+  - apply (A2Call1 2 BInt 4 BStr).
+  - apply (A2Call2 2 BInt 4 BStr).
+Qed.
+Example C03_example_two_functions_operands_rejects :
+  typecheck 60 (progfg [SStatementExpression (EBinOp Add (callf (EInt 1 (spl 3))) (callg (EInt 2 (spl 3))) (spl 3)) (spl 3)])
+  = Err (mkErr KBinOp (spl 3)) [].
+Proof. vm_compute. reflexivity. Qed.
+
+(* B :: blob { x: int } ; g :: fn q: int -> str ; f :: fn p: int -> int ; start :: fn do B { x: g(1) } end *)
+Definition progbg (body : list stmt) : resolved :=
+  mkResolved [mkVar 0 "start" sp0 true Const; mkVar 1 "B" (spl 1) true Const; mkVar 2 "f" (spl 1) true Const;
+              mkVar 3 "p" (spl 1) false Const; mkVar 4 "g" (spl 2) true Const; mkVar 5 "q" (spl 2) false Const;
+              mkVar 6 "self" (spl 3) false Const]
+             [SBlob "B" 1 (spl 1) [] [("x", (spl 1, TResolved BInt (spl 1)))] false; fdecl; gdecl;
+              SDefinition "start" 0 Const (TImplied sp0)
+                          (EFunction "lambda" [] (TResolved BVoid sp0) body false sp0) sp0].
+Example C03_example_blob_field_call_ok :
+  typecheck 60 (progbg [SStatementExpression (EBlob 1 [("x", callf (EInt 1 (spl 3)))] 6 (spl 3)) (spl 3)]) = Ok tt.
+Proof. vm_compute. reflexivity. Qed.
+Example C03_example_blob_field_call_rejects :
+  typecheck 60 (progbg [SStatementExpression (EBlob 1 [("x", callg (EInt 1 (spl 3)))] 6 (spl 3)) (spl 3)])
+  = Err (mkErr KMismatch (spl 3)) [].
+Proof. vm_compute. reflexivity. Qed.
+
 Print Assumptions C03_placement.
+Print Assumptions C03_two_functions.
+Print Assumptions C03_blob_field_call.
+Print Assumptions C03_after_two_declarations.
 Print Assumptions C03_field_assign.
 Print Assumptions C03_blob_field_type.
 Print Assumptions C03_component_conflict.
